@@ -61,7 +61,7 @@ class Connection:
             delay_dist: The delay distribution to simulate.
             delay: The delay to take into account for the phase shift.
         """
-        self.delay_dist = self.delay_dist if delay_dist is not None else self.delay_dist
+        self.delay_dist = delay_dist if delay_dist is not None else self.delay_dist
         self.delay_dist = (
             base.StaticDist.create(self.delay_dist) if isinstance(self.delay_dist, distrax.Distribution) else self.delay_dist
         )
@@ -210,7 +210,7 @@ class BaseNode:
             delay_dist: The delay distribution to simulate.
             delay: The delay to take into account for the phase shift.
         """
-        self.delay_dist = self.delay_dist if delay_dist is not None else self.delay_dist
+        self.delay_dist = delay_dist if delay_dist is not None else self.delay_dist
         self.delay_dist = (
             base.StaticDist.create(self.delay_dist) if isinstance(self.delay_dist, distrax.Distribution) else self.delay_dist
         )
